@@ -21,6 +21,9 @@ use std::panic::{catch_unwind, AssertUnwindSafe};
 
 pub type Bits = u128;
 
+/// number of iterator slots of a case (iterators alive at the same time)
+pub const SLOTS: usize = 4;
+
 /// An observation.
 #[derive(Clone, Debug)]
 pub enum Obs {
@@ -41,7 +44,33 @@ pub trait DynIt {
     fn nth_back(&mut self, n: usize) -> Obs;
     fn len(&self) -> Obs;
     fn size_hint(&self) -> Obs;
+    /// operations through `by_ref()` and the searching adaptors (provided methods of `Iterator` that
+    /// are built on `next` / `try_fold`): the iterator stays alive
+    fn other(&mut self, op: &str, n: usize) -> Obs;
     fn end(self: Box<Self>, op: &str, n: usize) -> Obs;
+}
+
+fn other_op<T, I, F>(it: &mut I, f: &F, op: &str, n: usize) -> Obs
+where
+    I: Iterator<Item = T> + DoubleEndedIterator + ExactSizeIterator + FusedIterator,
+    F: Fn(T) -> Obs,
+{
+    let mut c = 0usize;
+    match op {
+        // the predicate holds for the (n+1)-th item it is shown: find == nth, rfind == nth_back
+        "find" => o(f, it.find(|_| {
+            c += 1;
+            c > n
+        })),
+        "rfind" => o(f, it.rfind(|_| {
+            c += 1;
+            c > n
+        })),
+        "take_count" => Obs::Len(it.by_ref().take(n).count()),
+        "rev_take_count" => Obs::Len(it.by_ref().rev().take(n).count()),
+        "take_last" => o(f, it.by_ref().take(n).last()),
+        _ => panic!("rt: unknown op {op}"),
+    }
 }
 
 /// Adapter around a derived iterator.  The trait bounds are the documented ones (C06/C19): the glue
@@ -85,6 +114,9 @@ where
     fn size_hint(&self) -> Obs {
         let (a, b) = self.0.size_hint();
         Obs::Hint(a, b)
+    }
+    fn other(&mut self, op: &str, n: usize) -> Obs {
+        other_op(&mut self.0, &self.1, op, n)
     }
     fn end(self: Box<Self>, op: &str, n: usize) -> Obs {
         let It(it, f) = *self;
@@ -145,6 +177,9 @@ where
     fn size_hint(&self) -> Obs {
         let (a, b) = self.0.size_hint();
         Obs::Hint(a, b)
+    }
+    fn other(&mut self, op: &str, n: usize) -> Obs {
+        other_op(&mut self.0, &self.1, op, n)
     }
     fn end(self: Box<Self>, op: &str, n: usize) -> Obs {
         let ItOrd(it, f) = *self;
@@ -405,13 +440,24 @@ pub fn main(cases: Vec<fn() -> Case>) {
     let mut declared = false;
     let mut step = 0usize;
     let mut resume_step = 0usize;
-    let mut it: Option<Box<dyn DynIt>> = None;
-    let mut it_names = false;
-    let mut in_session_skip = false; // skipping the rest of an iterator session
+    // iterator slots: several iterators may be alive at once and are operated alternately (a step
+    // names its slot by a trailing `@k` token, default 0); a slot is empty when its session never
+    // started (feature absent, constructor panicked), lost its iterator (panic inside an operation,
+    // the process died) or was consumed -- operations on an empty slot are skipped
+    let mut its: Vec<Option<(Box<dyn DynIt>, bool)>> = (0..SLOTS).map(|_| None).collect();
     let mut absent = false; // the current case is not in this binary
+    let mut strbuf = String::with_capacity(1 << 16);
 
     for line in flat {
-        let t: Vec<&str> = line.split(' ').collect();
+        let mut t: Vec<&str> = line.split(' ').collect();
+        let mut slot = 0usize;
+        if t[0] == "s" {
+            if let Some(k) = t.last().and_then(|x| x.strip_prefix('@')) {
+                slot = k.parse().unwrap_or_else(|_| panic!("rt: bad slot in {line}"));
+                assert!(slot < SLOTS, "rt: slot out of range in {line}");
+                t.pop();
+            }
+        }
         match t[0] {
             "case" => {
                 // case <id> <grp> <gprop> <tmin> <tmax>
@@ -428,8 +474,9 @@ pub fn main(cases: Vec<fn() -> Case>) {
                 names.clear();
                 declared = false;
                 step = 0;
-                it = None;
-                in_session_skip = false;
+                for x in its.iter_mut() {
+                    *x = None;
+                }
                 if let Some((rc, rs)) = resume {
                     if skipping_case && rc == id {
                         skipping_case = false;
@@ -466,9 +513,6 @@ pub fn main(cases: Vec<fn() -> Case>) {
                     // resuming: the decl event was already written by the previous process;
                     // an interrupted iterator session is abandoned
                     declared = true;
-                    if kind == "op" || kind == "end" {
-                        in_session_skip = true;
-                    }
                 }
                 if !declared {
                     // decl event: discriminants as the compiler assigned them, ascending
@@ -497,8 +541,6 @@ pub fn main(cases: Vec<fn() -> Case>) {
                 let cx = Ctx { proj: &proj, case };
                 match kind {
                     "call" => {
-                        in_session_skip = false;
-                        it = None;
                         let f = t[3];
                         let pre = |a: i64, s: &str| format!("{{\"ev\":\"call\",\"case\":{},\"step\":{step},\"sig\":\"{sig}\",\"fn\":\"{f}\",\"a\":{a},\"s\":{s},", case.id);
                         macro_rules! vcall {
@@ -537,9 +579,13 @@ pub fn main(cases: Vec<fn() -> Case>) {
                             "from_str" | "from_str_t" => {
                                 let func = if f == "from_str" { case.from_str } else { case.from_str_t };
                                 if let Some(func) = func {
-                                    let s: String = t[4..].iter().filter(|x| !x.is_empty()).map(|x| char::from_u32(x.parse().unwrap()).unwrap()).collect();
-                                    out.w(&pre(0, &cps(&s)));
-                                    let r = guarded(|| optval(&cx, func(&s)));
+                                    // every string is passed through ONE reused buffer: same address (and often the same
+                                    // length) as the string of an earlier call, other bytes
+                                    strbuf.clear();
+                                    strbuf.extend(t[4..].iter().filter(|x| !x.is_empty()).map(|x| char::from_u32(x.parse().unwrap()).unwrap()));
+                                    let s: &str = &strbuf;
+                                    out.w(&pre(0, &cps(s)));
+                                    let r = guarded(|| optval(&cx, func(s)));
                                     out.w(&format!("\"res\":{r}}}\n"));
                                 }
                             }
@@ -569,8 +615,7 @@ pub fn main(cases: Vec<fn() -> Case>) {
                         }
                     }
                     "new" => {
-                        in_session_skip = false;
-                        it = None;
+                        its[slot] = None;
                         let src = t[3];
                         let (a, b) = if src == "range" { (parse_bits(t[4]), parse_bits(t[5])) } else { (0, 0) };
                         let present = match src {
@@ -580,11 +625,10 @@ pub fn main(cases: Vec<fn() -> Case>) {
                             _ => panic!("rt: unknown iterator source {src}"),
                         };
                         if !present {
-                            in_session_skip = true;
                             continue;
                         }
                         let (ma, mb) = if src == "range" { (proj.model(a), proj.model(b)) } else { (0, 0) };
-                        out.w(&format!("{{\"ev\":\"it_new\",\"case\":{},\"step\":{step},\"sig\":\"{sig}\",\"src\":\"{src}\",\"a\":{ma},\"b\":{mb},", case.id));
+                        out.w(&format!("{{\"ev\":\"it_new\",\"case\":{},\"step\":{step},\"sig\":\"{sig}\",\"src\":\"{src}\",\"slot\":{slot},\"a\":{ma},\"b\":{mb},", case.id));
                         let made = catch_unwind(AssertUnwindSafe(|| match src {
                             "iter" => (case.iter.unwrap())(),
                             "names" => (case.names.unwrap())(),
@@ -592,19 +636,17 @@ pub fn main(cases: Vec<fn() -> Case>) {
                         }));
                         match made {
                             Ok(i) => {
-                                it = Some(i);
-                                it_names = src == "names";
+                                its[slot] = Some((i, src == "names"));
                                 out.w("\"res\":{\"k\":\"ok\"}}\n");
                             }
                             Err(_) => {
                                 let msg = LAST_PANIC.with(|m| m.borrow().clone());
                                 out.w(&format!("\"res\":{{\"k\":\"panic\",\"msg\":{}}}}}\n", jstr(&msg)));
-                                in_session_skip = true;
                             }
                         }
                     }
                     "op" | "end" => {
-                        if in_session_skip || it.is_none() {
+                        if its[slot].is_none() {
                             continue;
                         }
                         let op = t[3];
@@ -614,10 +656,10 @@ pub fn main(cases: Vec<fn() -> Case>) {
                             0
                         };
                         let ev = if kind == "op" { "it_op" } else { "it_end" };
-                        out.w(&format!("{{\"ev\":\"{ev}\",\"case\":{},\"step\":{step},\"sig\":\"{sig}\",\"op\":\"{op}\",\"n\":{},", case.id, clamp(n)));
-                        let enumval = !it_names;
+                        out.w(&format!("{{\"ev\":\"{ev}\",\"case\":{},\"step\":{step},\"sig\":\"{sig}\",\"op\":\"{op}\",\"slot\":{slot},\"n\":{},", case.id, clamp(n)));
+                        let enumval = !its[slot].as_ref().unwrap().1;
                         let r = if kind == "op" {
-                            let i = it.as_mut().unwrap();
+                            let i = &mut its[slot].as_mut().unwrap().0;
                             guarded(|| {
                                 let o = match op {
                                     "next" => i.next(),
@@ -626,20 +668,19 @@ pub fn main(cases: Vec<fn() -> Case>) {
                                     "nth_back" => i.nth_back(n),
                                     "len" => i.len(),
                                     "size_hint" => i.size_hint(),
-                                    _ => panic!("rt: unknown op {op}"),
+                                    _ => i.other(op, n),
                                 };
                                 cx.obs(&o, enumval)
                             })
                         } else {
-                            let i = it.take().unwrap();
+                            let i = its[slot].take().unwrap().0;
                             guarded(|| cx.obs(&i.end(op, n), enumval))
                         };
                         let panicked = r.starts_with("{\"k\":\"panic\"");
                         out.w(&format!("\"res\":{r}}}\n"));
                         if panicked {
                             // the iterator may be in an inconsistent state after a panic
-                            it = None;
-                            in_session_skip = true;
+                            its[slot] = None;
                         }
                     }
                     _ => panic!("rt: unknown step kind {kind}"),
